@@ -280,7 +280,8 @@ class TriggerHandler:
             return
         self.__trace_installed = False
         # sys.settrace() is for the calling thread only: put the previous function back only where ours is installed
-        # (when shutdown is called from another thread than start, that thread's own trace function is not ours to replace)
+        # (when shutdown is called from another thread than start, that thread's own trace function is not ours to
+        # replace)
         if sys.gettrace() == self.trace_call:
             sys.settrace(self.__old_sys_trace)
         threading.settrace(self.__old_thread_trace)
